@@ -11,6 +11,7 @@ EXPLANATION = (
     "(R-C16-wake) after appending the will, handle_last_will drains every parked waiter and reschedules it (shared with R-C01-wake); "
     "(R-C16-fields) the Publish / PublishProperties built in handle_last_will take each field from the like-meaning field of the registered will and its properties; "
     "(R-C16-key) the keys agree: every link's Incoming and Outgoing buffers are created with Connection::new(..).client_id (tenant prefix included), and the will table is keyed by those client_id fields; "
+    "(R-C16-registry) in broker::remote nothing that can panic runs while the shared will-decider table is locked (region between each MutexGuard's definition and its drop), and the decider a task registers is removed or waited on on every path to the end of the task; "
     "NOT decided: ordering of PublishWill against Disconnect processing in the router channel; delay timing.")
 ASSUMPTIONS = ["rustc MIR construction is correct"]
 TECHNIQUE = "static analysis: who-may-write on the will table, provenance of the published will, must-pass / control-dependence rules in the connection task's async body (pre-lowering MIR)"
@@ -25,6 +26,7 @@ def run(ctx):
     ctx.guarded("R-C16-key", key_agreement, ctx, prog)
     ctx.guarded("R-C16-wake", will_wakes_subscribers, ctx, prog)
     ctx.guarded("R-C16-fields", will_fields, ctx, prog)
+    ctx.guarded("R-C16-registry", registry, ctx, prog)
 
 
 def will_wakes_subscribers(ctx, prog):
@@ -268,3 +270,70 @@ def will_fields(ctx, prog):
     ctx.floor(rule, "Publish built from the registered will", seen_pub, 1)
     ctx.floor(rule, "PublishProperties built from the will properties", seen_props, 1)
     ctx.ok(rule, bodies[0].id, "the will's Publish and PublishProperties take every field from the like-named field of the registration")
+
+
+PANICKY = r"(Result|Option)::<[^>]*>::(unwrap|expect|unwrap_err|expect_err)$|panicking::|::unwrap_failed$|::expect_failed$|begin_panic|Index(Mut)?<.*>>::index(_mut)?$"
+
+
+def registry(ctx, prog):
+    """The table of will deciders (Server.awaiting_will_handler, a Mutex<HashMap<client id, Sender>>) is shared by the
+    tasks of ALL connections. (a) Nothing that can panic may run while its lock is held: a panic there poisons the
+    mutex, every later `lock().unwrap()` panics too, and no connection after that is admitted or gets its will decided.
+    (b) A decider a task registered is taken out again on every path on which the task ends without waiting for the
+    decision: what stays behind is a sender whose receiver is gone, and the next connection of that client id signals
+    into it."""
+    rule = "R-C16-registry"
+    body = prog.one(r"^server::broker::remote::\{closure#0\}$")
+    guards = {}
+    for bb, t in body.calls():
+        if body.is_cleanup(bb):
+            continue
+        dl = t["dest"]["l"]
+        ty = body.local_ty(dl)
+        if ty.startswith("std::sync::MutexGuard<") and "AwaitingWill" in ty:
+            guards[dl] = bb
+    ctx.floor(rule, "critical sections of the will-decider table in broker::remote", len(guards), 3)
+    for g, bb in sorted(guards.items()):
+        drops = [i for i, b in enumerate(body.blocks) if b["t"]["k"] == "drop" and not b.get("cleanup") and b["t"]["pl"]["l"] == g and not b["t"]["pl"].get("p")]
+        if not drops:
+            raise AnchorMissing("broker::remote: the MutexGuard _%d of the will-decider table is never dropped on a normal path" % g)
+        region = reachable_after(body, [bb], avoid_blocks=tuple(drops))
+        bad = []
+        for b2, t2 in body.calls():
+            if b2 in region and not body.is_cleanup(b2) and re.search(PANICKY, callee_path(t2)):
+                bad.append((b2, t2, callee_path(t2)))
+        for b2 in region:
+            if body.blocks[b2]["t"]["k"] == "assert" and not body.blocks[b2].get("cleanup"):
+                bad.append((b2, body.blocks[b2]["t"], "assert"))
+        site = body.loc(body.blocks[bb]["t"].get("sp"))
+        if not bad:
+            ctx.ok(rule, body.id, "nothing that can panic runs while the will-decider table is locked (%d blocks)" % len(region), site=site)
+        for b2, t2, what in bad:
+            recv = ""
+            if t2.get("args"):
+                srcs = flatten_src(provenance(body, t2["args"][0]))
+                recv = ",".join(sorted({s.path.rsplit("::", 1)[-1] for s in srcs if s.kind == "call"}))
+            short = re.sub(r"::<[^>]*>", "", what).rsplit("::", 2)
+            ctx.violation(rule, body.id, "may panic while the will-decider table is locked: %s(%s)" % ("::".join(short[-2:]), recv),
+                          "%s on the result of %s runs between locking Server.awaiting_will_handler and dropping the guard: if it panics (e.g. the receiver of a stale decider is gone) the mutex is poisoned, "
+                          "every later connection task panics at `lock().unwrap()`, and no will is decided any more" % (what, recv or "?"),
+                          site=body.loc(t2.get("sp")))
+    # (b) registered => removed, or the task waits for the decision
+    def on_table(t):
+        return any(s.kind == "call" and s.path.endswith("Mutex::<T>::lock") for s in flatten_src(provenance(body, t["args"][0], through_calls=[r"DerefMut>::deref_mut$", r"Result::<T, E>::unwrap$"]))) \
+            or any(l in guards for l in [x.l for x in flatten_src(provenance(body, t["args"][0], through_calls=[r"DerefMut>::deref_mut$"])) if getattr(x, "l", None) is not None])
+    inserts = [bb for bb, t in body.calls() if re.search(r"HashMap::<K, V, S(, A)?>::insert$", callee_path(t)) and not body.is_cleanup(bb) and "AwaitingWill" in body.local_ty(t["dest"]["l"])]
+    removes = [bb for bb, t in body.calls() if re.search(r"HashMap::<K, V, S(, A)?>::remove$", callee_path(t)) and not body.is_cleanup(bb) and "AwaitingWill" in body.local_ty(t["dest"]["l"])]
+    waits = [bb for bb, t in body.calls() if re.search(r"tokio::time::timeout$", callee_path(t)) and not body.is_cleanup(bb)
+             and any(s.kind == "call" and s.path.endswith("recv_async") for s in flatten_src(provenance(body, t["args"][1])))]
+    if len(inserts) != 1 or not removes or not waits:
+        raise AnchorMissing("broker::remote: registration (insert %d) / removal (%d) / wait (%d) of the will decider not found" % (len(inserts), len(removes), len(waits)))
+    rets = return_blocks(body)
+    if must_pass(body, inserts, rets, via_blocks=set(removes) | set(waits)):
+        ctx.ok(rule, body.id, "a registered decider is removed, or waited on, on every path to the end of the task")
+    else:
+        p = find_path(body, inserts, rets, avoid_blocks=set(removes) | set(waits))
+        ctx.violation(rule, body.id, "decider left registered",
+                      "a path from registering the connection's will decider to the end of the task neither removes it nor waits on it (the link could not be created: router refused, CONNACK not written): "
+                      "the table keeps a sender whose receiver is gone, for the next connection of that client id to signal into",
+                      site=body.loc(body.blocks[inserts[0]]["t"].get("sp")), path=path_lines(body, p) if p else None)
